@@ -57,6 +57,10 @@ PROBES = ["add_array", "iadd_array", "mul_array", "div_array", "sub_array", "neg
           "sub_array_small", "isub_array_small", "sub_list_small", "add_list", "radd_array", "rsub_like",
           # a histogram that carries negative contents (made while the switch was on) added while it is off
           "add_negative_hist", "iadd_negative_hist",
+          # operations on a collection of histograms: legal with the switch on or off, and they must leave it alone
+          "coll_normalize_bins", "coll_normalize_all", "coll_sum",
+          # array-like operands on the LEFT that happen to be all zero (or empty): still array arithmetic
+          "radd_zero_array", "radd_zero_list", "radd_zero_int_array",
           # refused with the switch on or off - they exercise the raising paths of the operators:
           "sub_incompatible", "sub_other_ndim", "add_incompatible", "isub_incompatible", "mul_hist", "div_hist"]
 ALWAYS_REFUSED = {"sub_incompatible", "sub_other_ndim", "add_incompatible", "isub_incompatible", "mul_hist", "div_hist"}
@@ -269,6 +273,24 @@ class Interp:
                     c = h.copy()
                     c += neg
                     return c
+        elif kind in ("coll_normalize_bins", "coll_normalize_all", "coll_sum"):
+            from physt.histogram_collection import HistogramCollection
+            from physt.histogram1d import Histogram1D as _H1
+
+            m1 = h if h.ndim == 1 else self.hist(False, False)
+            coll = HistogramCollection(m1.copy(), _H1(m1.binning.copy(), frequencies=np.asarray(m1.frequencies) + 1))
+            if kind == "coll_normalize_bins":
+                fn = lambda: coll.normalize_bins(inplace=bool(self.depth % 2))  # noqa: E731
+            elif kind == "coll_normalize_all":
+                fn = lambda: coll.normalize_all(inplace=bool(self.depth % 2))  # noqa: E731
+            else:
+                fn = coll.sum
+        elif kind == "radd_zero_array":
+            fn = lambda: np.zeros(shape) + h  # noqa: E731
+        elif kind == "radd_zero_int_array":
+            fn = lambda: np.zeros(shape, dtype=np.int64) + h  # noqa: E731
+        elif kind == "radd_zero_list":
+            fn = lambda: np.zeros(shape).tolist() + h  # noqa: E731
         elif kind == "neg_factor":
             fn = lambda: h * (-1)  # noqa: E731
         elif kind == "oversub":
@@ -301,7 +323,7 @@ class Interp:
         expected = bool(self.model)
         if kind in ALWAYS_REFUSED:
             expected = False
-        elif kind == "sub_ok":
+        elif kind == "sub_ok" or kind.startswith("coll_"):
             expected = True
         ok, res = attempt(fn)
         if not ok and isinstance(res, (ActorKilled,)):
@@ -312,7 +334,7 @@ class Interp:
 
         if chaos() or ok != expected:
             what = "accepted-without-flag" if ok else "refused-with-flag"
-            if kind in ALWAYS_REFUSED or kind == "sub_ok":
+            if kind in ALWAYS_REFUSED or kind == "sub_ok" or kind.startswith("coll_"):
                 what = "accepted-in-either-mode" if ok else "refused-in-either-mode"
             ctx.violation(
                 "C19/guard-follows-context",
